@@ -1,12 +1,13 @@
 SPECIFICATION Spec
 CONSTANTS
- MaxP = 90
- MaxQ = 45
- MaxK = 10
+ MaxP = 47
+ MaxQ = 23
+ MaxK = 7
  Margin = 4
- Variants <- V_small
- NaiveMaxP = 23
+ Variants <- N_two
+ NaiveMaxP = 0
  Mode = "nbr"
- CheckArith = TRUE
+ CheckArith = FALSE
+ SortedBases = FALSE
 INVARIANTS BlockIsDefinition Sound Complete Shape Elements Emit
 CHECK_DEADLOCK FALSE
